@@ -2,6 +2,8 @@
 from __future__ import annotations
 
 import glob
+import shutil
+import tempfile
 import json
 import subprocess
 from concurrent.futures import ThreadPoolExecutor
@@ -29,6 +31,56 @@ def run_jobs(jobs: list[dict], workers: int = 12, timeout: int = 3000) -> dict:
             for r in rs:
                 res[r["id"]] = r
     return res
+
+
+
+def composed_corpus(ctx: Ctx, path: Path) -> int:
+    """Idioms nested in idioms: for every pair (outer rule with an operand of type T, inner rule whose
+    value has type T) of the C01 rule table, the outer idiom with that operand replaced by the inner one.
+    Diagnostics of different checks then start at the same position or sit inside each other."""
+    import ast
+    from .c01 import ANNOT, VALUES, make_fn
+    from .c01_rules import RULES
+    tag_of = {int: "int", str: "str", float: "float", bool: "bool"}
+    pure = [r for r in RULES if r.mode in ("expr", "cond") and r.cls == "P" and not r.fs and r.rhs is None and all(t in ANNOT for t in r.params.values())]
+    inner_by_tag: dict[str, list] = {}
+    for r in pure:
+        try:
+            ns: dict = {}
+            exec("import os, io, re, math, operator, itertools, functools\nfrom itertools import chain, starmap\n" + (r.setup or ""), ns)
+            v = make_fn(r.lhs, r, ns)(**{p: VALUES[t][min(1, len(VALUES[t]) - 1)] for p, t in r.params.items()})
+        except Exception:  # noqa: BLE001
+            continue
+        tag = tag_of.get(type(v))
+        if tag is None and isinstance(v, list) and all(isinstance(x, int) for x in v):
+            tag = "list_int"
+        if tag:
+            inner_by_tag.setdefault(tag, []).append(r)
+    units, setups = [], []
+    pairs = [(o, p, i) for o in pure for p, t in o.params.items() for i in inner_by_tag.get(t, [])]
+    ctx.rng.shuffle(pairs)
+    for k, (o, p, i) in enumerate(pairs[: ctx.budget(250, 2500)]):
+        ren = {q: f"i_{q}" for q in i.params}
+
+        class Ren(ast.NodeTransformer):
+            def visit_Name(self, n):
+                return ast.copy_location(ast.Name(id=ren.get(n.id, n.id), ctx=n.ctx), n)
+        inner = Ren().visit(ast.parse(i.lhs, mode="eval").body)
+
+        class Sub(ast.NodeTransformer):
+            def visit_Name(self, n):
+                return inner if n.id == p else n
+        try:
+            expr = ast.unparse(ast.fix_missing_locations(Sub().visit(ast.parse(o.lhs, mode="eval").body)))
+        except SyntaxError:
+            continue
+        params = [f"{q}: {ANNOT[t]}" for q, t in o.params.items() if q != p] + [f"{ren[q]}: {ANNOT[t]}" for q, t in i.params.items()]
+        for st in (o.setup, i.setup):
+            if st and st not in setups:
+                setups.append(st)
+        units.append(f"def _c{k}({', '.join(params)}):\n    _ = {expr}\n")
+    path.write_text("from typing import Any\nimport os, io, re, math, operator, itertools, functools\n" + "".join(setups) + "\n" + "\n".join(units))
+    return len(units)
 
 
 def run(ctx: Ctx) -> None:
@@ -59,6 +111,11 @@ def run(ctx: Ctx) -> None:
     groups = [stateful + [str(VERIF / "corpus" / "C04" / "kitchen.py")]]
     nested = len(groups)
     groups.append([str(VERIF / "corpus" / "C10" / "nested.py")])     # idioms of the record-keeping checks inside each other's constructs
+    comp_dir = Path(tempfile.mkdtemp(prefix="c10-"))
+    n_comp = composed_corpus(ctx, comp_dir / "composed.py")
+    ctx.count("composed-idioms", n_comp)
+    composed = len(groups)
+    groups.append([str(comp_dir / "composed.py")])
     k = ctx.budget(2, 9)
     rest = [f for f in data if f not in stateful]
     groups += [rest[i::k] for i in range(k)][: ctx.budget(2, 9)]
@@ -75,10 +132,10 @@ def run(ctx: Ctx) -> None:
             continue
         codes = sorted({d[3] for d in full["out"] if d[3]})
         picks = []
-        sample_codes = codes if ctx.tier == "thorough" or gi == nested else rng.sample(codes, min(len(codes), 6 if gi else 10))
+        sample_codes = codes if ctx.tier == "thorough" or gi in (nested, composed) else rng.sample(codes, min(len(codes), 6 if gi else 10))
         for c in sample_codes:
             picks.append(("only", [c]))
-            if ctx.tier == "thorough" or gi == nested or rng.random() < 0.5:
+            if ctx.tier == "thorough" or gi in (nested, composed) or rng.random() < 0.5:
                 picks.append(("all-but", [c]))
             if ctx.tier == "thorough" or rng.random() < 0.3:
                 picks.append(("all-ignore", [c]))
@@ -106,4 +163,5 @@ def run(ctx: Ctx) -> None:
             key = "interference:" + (",".join(involved) if involved else "order")
             ctx.report(key, f"{mode} {sel[:4]}: {len(missing)} diagnostics lost, {len(extra)} added/changed (e.g. {(missing + extra)[0][1:4] if missing + extra else 'order only'})",
                        {"files": [Path(f).name for f in groups[gi]], "mode": mode, "codes": sel, "missing": missing, "extra": extra})
+    shutil.rmtree(comp_dir, ignore_errors=True)
     ctx.resolve_broken({"effects_admissible": "interference:"}, b.first_error if b else "")
